@@ -199,6 +199,15 @@ func runC01(c *Ctx) {
 				}
 			}
 		}
+		// public keys of impossible lengths (nothing at all, one byte, a coordinate missing or too many): refused, not a panic
+		for _, n := range []int{0, 1, 2, 32, 34, 64, 66, 100} {
+			pk := randBytes(c.Rng, n)
+			if n > 0 {
+				pk[0] = []byte{2, 3, 4, 6, 7}[n%5]
+			}
+			newAddr(c, "PubKey", net, pk)
+		}
+		newAddr(c, "PubKey", net, nil)
 		// wrong-length hashes are refused
 		for _, n := range []int{0, 19, 21, 31, 32, 33} {
 			for _, ctor := range append(append(append([]string{}, cashCtors20...), legacyCtors...), cashCtors32...) {
